@@ -25,6 +25,10 @@ FAULTS = [
     ("missing-table", ".table 'no_such_file_zq.tbl'"),
     ("missing-ips", ".include_ips 'no_such_file_zq.ips', 0"),
     ("symbol-chain", "zq_a = zq_b"),
+    ("bad-mode-inner-outer", "lda (0x10,x),y"),
+    ("bad-mode-inner-outer-eor", "eor (0x10,x),y"),
+    ("run-off-mapped-area", "*=0x6ffffe\n.db 1, 2, 3, 4"),
+    ("run-off-mapped-area-code", "*=0x6ffffd\nlda.l 0x123456\nnop"),
     ("branch-range+128", "lzq1:\nbra lzq1 + 130"),
     ("branch-range-129", "lzq2:\nbra lzq2 - 127"),
     ("undefined-macro-in-if", ".if 1 {\nundefined_macro_zq(1)\n}"),
